@@ -1,4 +1,8 @@
-"""C07 — clone is field-wise; clone_from leaves the target equal to a clone of the source (E1)."""
+"""C07 — clone is field-wise; clone_from leaves the target equal to a clone of the source (E1).
+
+Oracle: an explicit field-wise reference (`ref_clone`, `ref_clone_from`) written out by the generator is run on structural
+snapshots with the same call recorder; the derived methods must produce the same value AND the same call trace.
+"""
 import itertools
 import random
 import time
@@ -10,71 +14,100 @@ PID = "C07"
 F = Field
 
 
-def payload(expr, ty):
-    return {"R": "%s.0" % expr, "u8": "*%s" % expr}[ty]
+def has_ref(t):
+    return any(f.ty.startswith("&'a") for _, f in t.all_fields())
 
 
-def copy_expr(expr, ty):
-    return {"R": "R(%s.0)" % expr, "u8": "*%s" % expr}[ty]
+def tyuse(t):
+    args = (["'a"] if has_ref(t) else []) + [c for _, c in t.generics]
+    return t.name + ("<%s>" % ", ".join(args) if args else "")
+
+
+def decl_generics(t):
+    args = (["'a"] if has_ref(t) else []) + [g for g, _ in t.generics]
+    return "<%s>" % ", ".join(args) if args else ""
+
+
+def item_text(t, pre):
+    txt = t.item_text(pre)
+    if has_ref(t):
+        g = t.decl_generics()
+        head = "%s %s%s" % ("struct" if t.kind == "struct" else "enum", t.name, g)
+        new = "%s %s%s" % ("struct" if t.kind == "struct" else "enum", t.name, decl_generics(t))
+        txt = txt.replace(head, new, 1)
+    return txt
+
+
+def ctor(t, v, vals):
+    path = t.name if t.kind == "struct" else "%s::%s" % (t.name, v.name)
+    if v.kind == "unit":
+        return path
+    if v.kind == "named":
+        return "%s { %s }" % (path, ", ".join("%s: %s" % (f.name, e) for f, e in zip(v.fields, vals)))
+    return "%s(%s)" % (path, ", ".join(vals))
 
 
 def helper_fns(t):
-    tu = t.ty_use()
-    out = [t.idx_fn()]
-    # snap: structural copy that does not go through Clone
-    arms, same_arms, clone_arms, cf_arms = [], [], [], []
-    for v in t.variants:
-        path = t.name if t.kind == "struct" else "%s::%s" % (t.name, v.name)
-        vals = [copy_expr("a%d" % i, t.conc(f.ty)) for i, f in enumerate(v.fields)]
-        if v.kind == "unit":
-            ctor = path
-        elif v.kind == "named":
-            ctor = "%s { %s }" % (path, ", ".join("%s: %s" % (f.name, e) for f, e in zip(v.fields, vals)))
-        else:
-            ctor = "%s(%s)" % (path, ", ".join(vals))
-        arms.append("        %s => %s," % (t.pat(v, "a"), ctor))
-        conds = ["%s == %s" % (payload("a%d" % i, t.conc(f.ty)), payload("b%d" % i, t.conc(f.ty))) for i, f in enumerate(v.fields)]
-        same_arms.append("        (%s, %s) => %s," % (t.pat(v, "a"), t.pat(v, "b"), " && ".join(conds) or "true"))
-        ev = ["            out[n] = Ev { op: OP_CLONE, a: a%d.0, b: 0 }; n += 1;" % i for i, f in enumerate(v.fields) if t.conc(f.ty) == "R"]
-        clone_arms.append("        %s => {\n%s\n        }" % (t.pat(v, "a"), "\n".join(ev)))
-        ev = ["            out[n] = Ev { op: OP_CLONE_FROM, a: a%d.0, b: b%d.0 }; n += 1;" % (i, i) for i, f in enumerate(v.fields) if t.conc(f.ty) == "R"]
-        cf_arms.append("        (%s, %s) => {\n%s\n        }" % (t.pat(v, "a"), t.pat(v, "b"), "\n".join(ev)))
+    tu = tyuse(t)
+    lt = "<'a>" if has_ref(t) else ""
+    out = [t.idx_fn().replace("&%s" % t.ty_use(), "&%s" % tu.replace("'a", "'_"))]
+    snap_arms, same_arms, clone_arms, cf_arms, mk_arms = [], [], [], [], []
+    for i, v in enumerate(t.variants):
+        n = len(v.fields)
+        snap_arms.append("        %s => %s," % (t.pat(v, "a"), ctor(t, v, ["a%d.snap()" % j for j in range(n)])))
+        same_arms.append("        (%s, %s) => %s," % (t.pat(v, "a"), t.pat(v, "b"), " && ".join("a%d.same(b%d)" % (j, j) for j in range(n)) or "true"))
+        clone_arms.append("        %s => %s," % (t.pat(v, "a"), ctor(t, v, ["Clone::clone(a%d)" % j for j in range(n)])))
+        cf_arms.append("        (%s, %s) => {\n%s\n        }" % (t.pat(v, "a"), t.pat(v, "b"), "\n".join("            Clone::clone_from(a%d, b%d);" % (j, j) for j in range(n))))
+        vals = []
+        for f in v.fields:
+            if f.ty.startswith("&'a"):
+                vals.append("&pool[s.below(2) as usize]")
+            else:
+                vals.append("Gen::gen(s)")
+        mk_arms.append("        %d => %s," % (i, ctor(t, v, vals)))
     if t.kind == "enum":
         same_arms.append("        _ => false,")
-        cf_arms.append("        _ => { return exp_clone(y, out); }")
-    out.append("pub fn snap(x: &%s) -> %s {\n    match x {\n%s\n    }\n}\n" % (tu, tu, "\n".join(arms)))
-    out.append("pub fn same(x: &%s, y: &%s) -> bool {\n    match (x, y) {\n%s\n    }\n}\n" % (tu, tu, "\n".join(same_arms)))
-    out.append("/// reference trace of `x.clone()`: one Clone::clone per field, in declaration order\n"
-               "pub fn exp_clone(x: &%s, out: &mut [Ev; 8]) -> usize {\n    let mut n = 0;\n    match x {\n%s\n    }\n    n\n}\n" % (tu, "\n".join(clone_arms)))
-    out.append("/// reference trace of `x.clone_from(y)`: same variant -> one clone_from per field; else a clone of y\n"
-               "#[allow(unreachable_patterns)]\npub fn exp_clone_from(x: &%s, y: &%s, out: &mut [Ev; 8]) -> usize {\n    let mut n = 0;\n    match (x, y) {\n%s\n    }\n    n\n}\n" % (
-                   tu, tu, "\n".join(cf_arms)))
+    cf_arms.append("        (lhs, rhs) => *lhs = ref_clone(rhs),")
+    out.append("pub fn snap%s(x: &%s) -> %s {\n    match x {\n%s\n    }\n}\n" % (lt, tu, tu, "\n".join(snap_arms)))
+    out.append("#[allow(unreachable_patterns)]\npub fn same%s(x: &%s, y: &%s) -> bool {\n    match (x, y) {\n%s\n    }\n}\n" % (lt, tu, tu, "\n".join(same_arms)))
+    out.append("/// reference: one Clone::clone per field, in declaration order\npub fn ref_clone%s(x: &%s) -> %s {\n    match x {\n%s\n    }\n}\n" % (lt, tu, tu, "\n".join(clone_arms)))
+    out.append("/// reference: same variant -> one Clone::clone_from per field, nothing else; otherwise replace by a clone of the source\n"
+               "#[allow(unreachable_patterns)]\npub fn ref_clone_from%s(x: &mut %s, y: &%s) {\n    match (x, y) {\n%s\n    }\n}\n" % (lt, tu, tu, "\n".join(cf_arms)))
+    if t.kind == "struct":
+        body = "    %s" % mk_arms[0].strip()[len("0 => "):].rstrip(",")
+    else:
+        body = "    match s.below(%d) {\n%s\n        _ => loop { vassume(false); },\n    }" % (len(t.variants), "\n".join(mk_arms))
+    out.append("pub fn mk<'a, S: Src>(s: &mut S, pool: &'a [R; 2]) -> %s {\n%s\n}\n" % (tu, body))
     return "\n".join(out)
 
 
 CHECK = """pub fn check<S: Src>(s: &mut S) {
-    let a = mk(s);
+    let pool = [R(s.u8()), R(s.u8())];
+    let a = mk(s, &pool);
     let a0 = snap(&a);
-    let mut exp = [Ev { op: 0, a: 0, b: 0 }; 8];
-    let n = exp_clone(&a, &mut exp);
     trace_reset();
-    let c = a.clone();
-    assert!(same(&c, &a0), "clone-value");
+    let want = ref_clone(&a0);
+    let tw = trace_take();
+    let got = a.clone();
+    let tg = trace_take();
+    assert!(same(&got, &want) && same(&got, &a0), "clone-value");
     assert!(same(&a, &a0), "clone-source-unchanged");
-    assert!(trace_is(&exp[..n]), "clone-trace");
+    assert!(trace_same(&tg, &tw), "clone-trace");
 
-    let mut x = mk(s);
-    let y = mk(s);
-    let x0 = snap(&x);
+    let mut x = mk(s, &pool);
+    let y = mk(s, &pool);
+    let mut xr = snap(&x);
     let y0 = snap(&y);
-    let n = exp_clone_from(&x0, &y0, &mut exp);
-    cover!(vidx(&x0) == vidx(&y0), "same-variant");
+    cover!(vidx(&x) == vidx(&y), "same-variant");
 {cover_diff}
     trace_reset();
+    ref_clone_from(&mut xr, &y0);
+    let tw = trace_take();
     x.clone_from(&y);
-    assert!(same(&x, &y0), "clone_from-value");
+    let tg = trace_take();
+    assert!(same(&x, &xr) && same(&x, &y0), "clone_from-value");
     assert!(same(&y, &y0), "clone_from-source-unchanged");
-    assert!(trace_is(&exp[..n]), "clone_from-trace");
+    assert!(trace_same(&tg, &tw), "clone_from-trace");
 }
 
 """
@@ -83,16 +116,17 @@ CHECK = """pub fn check<S: Src>(s: &mut S) {
 def build(name, t, entry, desc, sig, list_args="Clone"):
     src = e1.HEADER.format(pid=PID, name=name, desc=desc)
     pre = ["#[derive_ex(%s)]" % list_args] if entry == "attr" else ["#[derive(Ex)]", "#[derive_ex(%s)]" % list_args]
-    src += t.item_text(pre) + "\n\n"
-    src += helper_fns(t) + "\n" + t.mk_fn() + "\n"
+    src += item_text(t, pre) + "\n\n"
+    src += helper_fns(t) + "\n"
     multi = t.kind == "enum" and len(t.variants) >= 2
-    src += CHECK.replace("{cover_diff}", '    cover!(vidx(&x0) != vidx(&y0), "different-variant");' if multi else "")
-    src += e1.harness(unwind=10)
+    src += CHECK.replace("{cover_diff}", '    cover!(vidx(&x) != vidx(&y), "different-variant");' if multi else "")
+    src += e1.harness(unwind=14)
     nf = sum(len(v.fields) for v in t.variants)
     return kani_runner.Program(name, src, sig, desc, nontrivial=nf >= 2 or multi)
 
 
 VKINDS = [("unit", 0), ("tuple", 1), ("tuple", 2), ("named", 1), ("named", 2), ("named", 3), ("tuple", 4)]
+EXOTIC = ["&'a R", "(R, u8)", "[R; 2]", "Option<R>", "RC"]
 
 
 def mk_variant(name, kind, n, tys):
@@ -104,9 +138,8 @@ def mk_variant(name, kind, n, tys):
 
 
 def candidates(tier, rnd):
-    out = []  # (TypeSpec, entry, list_args, sigextra)
-    # structs
-    for kind, ns in (("unit", [0]), ("tuple", [1, 2, 3, 4]), ("named", [1, 2, 3, 4])):
+    out = []  # (TypeSpec, entry, list_args)
+    for kind, ns in (("unit", [0]), ("tuple", [0, 1, 2, 3, 4]), ("named", [0, 1, 2, 3, 4])):
         for n in ns:
             for tys in (["R"], ["R", "u8"], ["u8", "R"]):
                 if n == 0 and tys != ["R"]:
@@ -115,23 +148,47 @@ def candidates(tier, rnd):
                 out.append((t, "attr", "Clone"))
                 if tys == ["R"]:
                     out.append((t, "derive", "Clone"))
+    # field types beyond the plain recorder: references, tuples, arrays, Option, Copy types with a hand-written Clone
+    for ty in EXOTIC:
+        for kind in ("named", "tuple"):
+            t = TypeSpec("struct", [mk_variant(None, kind, 2, [ty, "R"])], shape="struct-%s2-[%s]R" % (kind, ty))
+            out.append((t, "attr", "Clone"))
+        t = TypeSpec("enum", [mk_variant("V0", "tuple", 1, [ty]), mk_variant("V1", "named", 2, ["R", ty]), Variant("V2", "unit", [])], shape="enum-[%s]" % ty)
+        out.append((t, "attr", "Clone"))
+    # Clone derived together with other traits (the co-derived set must not change Clone)
+    for la in ("Copy, Clone", "Clone, Copy", "Clone, Debug", "Clone, PartialEq, Default"):
+        fty = "RC" if "Copy" in la else "R"
+        t = TypeSpec("struct", [mk_variant(None, "tuple", 2, [fty])], shape="struct-tuple2-%s" % fty)
+        if "Default" in la or "PartialEq" in la or "Debug" in la:
+            fty = "u8"
+            t = TypeSpec("struct", [Variant(None, "named", [F("f0", "u8"), F("f1", "u8")])], shape="struct-named2-u8")
+        out.append((t, "attr", la))
+        if "Copy" in la:
+            t2 = TypeSpec("enum", [mk_variant("V0", "tuple", 1, ["RC"]), mk_variant("V1", "named", 2, ["RC"]), Variant("V2", "unit", [])], shape="enum-RC")
+            out.append((t2, "attr", la))
+            t3 = TypeSpec("struct", [Variant(None, "named", [F("a", "A"), F("b", "RC")])], [("A", "RC")], shape="struct-generic-RC")
+            out.append((t3, "attr", la))
     # generic wrappers, bound arguments (must not change behaviour)
     for la in ("Clone", "Clone(bound(A: Clone))", "Clone, bound(A)", "Clone(bound(..))"):
-        t = TypeSpec("struct", [Variant(None, "named", [F("a", "A"), F("b", "R"), F("p", "core::marker::PhantomData<A>")])],
-                     [("A", "R")], shape="struct-generic")
-        t.variants[0].fields = [F("a", "A"), F("b", "R")]
+        t = TypeSpec("struct", [Variant(None, "named", [F("a", "A"), F("b", "R"), F("p", "core::marker::PhantomData<A>")])], [("A", "R")], shape="struct-generic")
         out.append((t, "attr", la))
         t2 = TypeSpec("enum", [Variant("P", "tuple", [F(None, "A")]), Variant("Q", "named", [F("a", "R"), F("b", "A")]), Variant("U", "unit", [])],
                       [("A", "R")], shape="enum-generic")
+        out.append((t2, "attr", la))
+    for la in ("Clone(bound())", "Clone, bound()"):
+        t = TypeSpec("struct", [mk_variant(None, "named", 2, ["R"])], shape="struct-named2-R")
+        out.append((t, "attr", la))
+        t2 = TypeSpec("enum", [mk_variant("V0", "tuple", 1, ["R"]), mk_variant("V1", "named", 2, ["R"])], shape="enum-tuple1-named2")
         out.append((t2, "attr", la))
     # enums
     combos = []
     for k in (1, 2, 3):
         combos += list(itertools.product(VKINDS[:6], repeat=k))
     if tier != "thorough":
-        core = [c for c in combos if len(c) <= 2 and all(x in (("unit", 0), ("tuple", 2), ("named", 2)) for x in c)]
-        core += [(("unit", 0), ("tuple", 2), ("named", 3)), (("tuple", 1), ("tuple", 1), ("tuple", 1)), (("named", 2), ("named", 2), ("unit", 0))]
-        combos = core + rnd.sample(combos, 30)
+        core = [c for c in combos if len(c) <= 2 and all(x in (("unit", 0), ("tuple", 1), ("tuple", 2), ("named", 2)) for x in c)]
+        core += [(("unit", 0), ("tuple", 2), ("named", 3)), (("tuple", 1), ("tuple", 1), ("tuple", 1)), (("named", 2), ("named", 2), ("unit", 0)),
+                 (("named", 1), ("unit", 0), ("tuple", 1))]
+        combos = core + rnd.sample(combos, 25)
     for c in combos:
         vs = [mk_variant("V%d" % i, kind, n, ["R"] if i % 2 == 0 else ["R", "u8"]) for i, (kind, n) in enumerate(c)]
         if sum(len(v.fields) for v in vs) > 8:
@@ -140,6 +197,7 @@ def candidates(tier, rnd):
         out.append((t, "attr", "Clone"))
         if len(c) == 2:
             out.append((t, "derive", "Clone"))
+    out.append((TypeSpec("enum", [], shape="enum-empty"), "attr", "Clone")) if False else None
     return out
 
 
@@ -155,9 +213,11 @@ def run(tier):
         progs.append(build("p%05d" % len(progs), t, entry, "shape=%s list=%s entry=%s" % (t.shape, la, entry), sig, la))
     return e1.finish(
         PID, tier, progs, t0,
-        rule="one Kani harness per type shape; all field payloads of all operands and both variant selectors are symbolic, so each harness covers every "
-             "ordered pair of values incl. every pair of distinct variants; non-trivial = >= 2 fields or >= 2 variants; distinct by shape|list|entry",
-        bounds="structs (unit/tuple/named) with 0..4 fields; enums with <=3 variants of kinds unit/tuple1/tuple2/named1..3; field types R (call-recording), u8, generic A:=R; trace <= 8 events (unwind 10)",
-        outside="more than 3 variants or 4 fields per variant; field types whose Clone has other side effects",
+        rule="one Kani harness per type shape; all field payloads of all operands and both variant selectors are symbolic, so each harness covers every ordered pair of "
+             "values incl. every pair of distinct variants; value and call trace must equal those of an explicit field-wise reference run on snapshots; "
+             "non-trivial = >= 2 fields or >= 2 variants; distinct by shape|list|entry",
+        bounds="structs (unit/tuple/named) with 0..4 fields; enums with <=3 variants of kinds unit/tuple1/tuple2/named1..3; field types R (call-recording), u8, RC (Copy with recording Clone), "
+               "&'a R, (R,u8), [R;2], Option<R>, generic A:=R; Clone alone and co-derived with Copy/Debug/PartialEq/Default; bound(..) decorations; trace <= 12 events (unwind 14)",
+        outside="more than 3 variants or 4 fields per variant; empty enums (rustc rejects the generated match, property C20)",
         functions=["Clone::clone and Clone::clone_from generated by derive_ex for each program"],
-        assumptions=["the call trace is observed through a static mut array written by R::clone / R::clone_from"])
+        assumptions=["the call trace is observed through a static mut array written by R::clone / R::clone_from / RC::clone*"])
